@@ -20,7 +20,8 @@ THEOREMS = (["C15_angle_reduction", "C15_jde2000", "C15_mean_node", "C15_mean_pe
              "C15_illuminated_fraction", "C15_finder_index", "C15_finder_spacing"]
             + ["C15_" + t for t in FINDER_TARGETS_QUICK] + ["C15_%s_refusals" % f for f in FINDER_NAMES]
             + ["C15_finder_timing"]
-            + ["C15_moon_phase_%s" % t for t in ("new", "first", "full", "last")] + ["C15_phase_order", "C15_phase_spacing", "C15_new_moon_spacing", "C15_full_moon_spacing"]
+            + ["C15_moon_phase_%s" % t for t in ("new", "first", "full", "last")] + ["C15_phase_order", "C15_phase_spacing", "C15_new_moon_spacing", "C15_full_moon_spacing",
+               "C15_first_quarter_spacing", "C15_last_quarter_spacing"]
             + ["C15_moon_position", "C15_moon_series_closed_form", "C15_moon_envelopes"])
 PROOF_TIMEOUT = {"quick": 1500, "thorough": 3300}
 EXHAUSTIVE = False
@@ -70,7 +71,7 @@ CLAUSES = {
     "results strictly increasing in k, consecutive results one mean month +-(2C+D) apart when 2C+D < B": "C15_finder_spacing: [spec] NOT tied to the code by proof (it needs |c k| <= C for every integer k, the generated corrections are bounded only on the window -41 <= T <= 21); the code-tied statement is C15_finder_timing (row 'deviation ...')",
     "moon_phase closed form (4 targets: decimal year y + doy/(365|366), k = round((yr-2000)*12.3685,0) + 0/0.25/0.5/0.75, mean phase polynomial, E, M/M'/F/Omega, 14 planetary arguments, periodic sum per target with every coefficient, W for the quarters (negated for 'last'), additional terms)": "proved [ideal; C15_moon_phase_new/first/full/last; Epoch.get_date/is_leap/get_doy values and Epoch(x) as hypotheses (Epoch_of E: Epoch(x) stores E x, E uninterpreted); refusals proved]",
     "phases in order inside a lunation (new < first < full < last < next new, 5.2..9.6 d apart) on the index window -41 <= k/1236.85 <= 21": "proved [ideal + lra from the deviation bounds C = 0.953 / 1.179 / 0.953 / 1.173 d, C15_phase_order; in the index n, not in the query epoch]",
-    "successive same-phase instants 29.2..29.9 d apart": "proved [ideal] for new moons and for full moons (C15_new_moon_spacing / C15_full_moon_spacing: every index k with k, k+1 in the window -41 <= k/1236.85 <= 21; term-by-term difference bound 0.3136 d on the proved coefficients, C15_d_moon_phase_*.v written by mkdiff.py); quarters: only 29.530588861 +- 2C (C15_phase_spacing) - they really vary 29.18..29.93 d, outside the property's figure; searched (29.15..29.95) on every calendar day of the sample years; in the index k, not in the query epoch",
+    "successive same-phase instants 29.2..29.9 d apart": "proved [ideal] for new moons and for full moons (C15_new_moon_spacing / C15_full_moon_spacing: every index k with k, k+1 in the window -41 <= k/1236.85 <= 21; term-by-term difference bound 0.3136 d on the proved coefficients, C15_d_moon_phase_*.v written by mkdiff.py); quarters: 29.1..30.0 d by the same bound (C15_first_quarter_spacing / C15_last_quarter_spacing) - they really vary 29.18..29.93 d, outside the property's figure; searched (29.15..29.95) on every calendar day of the sample years; in the index k, not in the query epoch",
     "finder closed forms: perigee, northern / southern maximum declination (T15_* in C15_heavy.v)": "proved in the thorough tier [ideal; same hypotheses; 5-7 min and 6-8 GB each, therefore not compiled in quick and not listed in THEOREMS]",
     "finder closed forms on the regenerated code (ascending/descending node passages, apogee; quick tier): index k = round((year - y0) rate, 0) + target offset from the fractional year, result Epoch(mean(k) + periodic terms) [+ Angle(parallax) / Angle(declination)], every coefficient": "proved [ideal; Epoch.get_date/is_leap/get_doy values, Epoch(x) and Angle(0,0,p) as hypotheses]",
     "deviation |result - (J0 + B k)| <= C on -41 <= T <= 21 with 2C < B (C = 1.28 / 1.96 / 4.20 / 2.16 d nodes / apogee / perigee / declination) => consecutive results strictly ordered, B +- 2C apart, never backwards": "proved [ideal + spec: interval arithmetic on the proved coefficients, C15_finder_timing; tied to the generated finders; ordering/spacing is in the index k, NOT in the query epoch: 'never backwards as the query advances' additionally needs the fractional year to be non-decreasing in the epoch (C16) and is searched]",
@@ -89,7 +90,8 @@ def proof_files(tier):
     if tier != "quick":
         fs += ["C15_f_%s.v" % t for t in FINDER_TARGETS_THOROUGH] + ["C15_heavy.v"]
     # Moon.moon_phase, 4 targets: let-abstracting call-by-value driver (C15_tac3.v), ~80 s per target file
-    fs += ["C15_tac3.v"] + ["C15_p_moon_phase_%s.v" % t for t in ("new", "first", "full", "last")] + ["C15_phase.v", "C15_diff.v", "C15_d_moon_phase_new.v", "C15_d_moon_phase_full.v", "C15_s3.v"]
+    fs += ["C15_tac3.v"] + ["C15_p_moon_phase_%s.v" % t for t in ("new", "first", "full", "last")] + ["C15_phase.v", "C15_diff.v", "C15_d_moon_phase_new.v", "C15_d_moon_phase_full.v",
+           "C15_d_moon_phase_first.v", "C15_d_moon_phase_last.v", "C15_s3.v"]
     # Moon.geocentric_ecliptical_pos: generic loop theorems + instantiation + envelopes (about 45 s in all)
     fs += ["C15_pos_tac.v", "C15_pos_loop.v", "C15_pos_main.v", "C15_pos_bound.v", "C15_pos.v"]
     return fs + ["C15_s1.v", "C15_s2.v", "C15.v"]
